@@ -94,6 +94,18 @@ CLAIMED = {
         "note": "Trusted: z3 (ring identities), symx, FFTStub exact DFT, NdiStub.sum_labels, Cauchy-Schwarz per shell as a lemma for [-1,1], C09's dask/rng stubs. Bounds: boxes with sides in {1,2,4}, <= 8 voxels quick / <= 32 thorough, (box, dfreq) pairs without empty shells. Not covered: other box sides, uint16 label overflow for tiny dfreq, the numeric value of the backend fsc() score.",
         "ref": "DESIGN.md §4 C17",
     },
+    "C04": {
+        "text": "Convention chain landscape entry <-> lag <-> returned shift, for ZNCC, NCC, PCC and FSC. (1) The real subpixel_zncc/ncc (up to their upsample() call) and *_landscape_with_crop are executed on images of symbolic voxels over a "
+                "convolution-theorem FFT stub: z3 proves that numerator and radicand of every landscape entry are those of the (zero-)normalised correlation between the template and the window of the padded sub-volume at lag "
+                "x-centre (uncropped) / r-int(m) (cropped); pcc_landscape and fsc_landscape likewise over an exact DFT (sides 1,2,4), and for any side through position-code inverse FFT / recorded phase ramps. "
+                "(2) The real subpixel_zncc/ncc/fsc/pcc are executed with symbolic max_shifts and a data-blind arg-max (every coarse and refined peak): the returned shift equals the lag of the landscape position sampled at the refined maximum, "
+                "the coarse peak is a node of the refinement mesh/window, and the window is exactly the set of 1/20-px nodes near the coarse peak whose lag lies in [-m, m]. (3) _upsampled_dft's kernel phase is -2pi(n-off)k'/(N up) axis by axis. "
+                "(4) The models hand (sub-volume*mask, template*mask) to the backend in this order, return its shift and score unchanged with the identity quaternion, and fit() resamples at o+shift.",
+        "note": "Trusted: z3, symx, FFTStub (convolution theorem, exact DFT), HybridNdi (opaque interpolation), BlindNP (arbitrary arg-max), Cauchy-Schwarz (a perfect copy at lag d maximises the normalised correlation at d) and the Fourier shift theorem beyond sides 1,2,4 as lemmas. "
+                "Bounds: symbolic-voxel boxes <= 6 voxels quick / <= 12 thorough; decode boxes up to 9 per side with max_shifts symbolic on one axis in [0, 2*side); float32 mesh constants read as exact k/20 fractions. "
+                "NOT covered: the numeric accuracy figures of the statement (0.1 px / 0.5 px) - they depend on floating-point FFT, cubic-spline interpolation and image content; a regression that only degrades accuracy without changing an index, sign, window or argument order is not detected.",
+        "ref": "DESIGN.md §4 C04",
+    },
     "C19": {
         "text": "The real pipeline classes executed on images of symbolic voxels with uninterpreted voxel-wise converters and scale-dependent providers: +,-,*,/ between pipelines and with a scalar on either side, unary minus and comparison give the voxel-wise expression; compose/@ is function application in order and associative, with_scale partialises, provider/converter_function curry. "
                 "Unit handling executed with symbolic scale and parameters and recorded scipy.ndimage calls: radius_px = 0 if |r/scale|<1 else ceil|r/scale| and is invariant under (r,scale)->(lr,ls); dilation/closing dispatch on the sign and use the closed ball of that radius; gaussian_filter/shift/gaussian_smooth/from_array receive sigma/scale, shift/scale, orig/scale; "
